@@ -325,6 +325,8 @@ def aten_linalg_vector_norm(
 
     if dtype != -1:
         self = op.Cast(self, to=dtype)
+    # With dim=None everything is reduced; keepdim=True then keeps every dimension with size 1
+    keep_all_dims_rank = len(self.shape) if (dim is None and keepdim) else 0
     if dim is None:
         self = op.Reshape(self, op.Constant(value_ints=[-1]))
         keepdim = False
@@ -334,21 +336,24 @@ def aten_linalg_vector_norm(
     if math.isinf(ord):
         self = op.Abs(self)
         if ord > 0:
-            return op.ReduceMax(self, dim, keepdims=keepdim)
+            result = op.ReduceMax(self, dim, keepdims=keepdim)
         else:
-            return op.ReduceMin(self, dim, keepdims=keepdim)
+            result = op.ReduceMin(self, dim, keepdims=keepdim)
     elif ord == 0.0:  # sum(x!=0) means count non-zero elements
         self_bool = op.Cast(self, to=BOOL.dtype)
         self_0_1 = op.CastLike(self_bool, self)
-        return op.ReduceSum(self_0_1, dim, keepdims=keepdim)
+        result = op.ReduceSum(self_0_1, dim, keepdims=keepdim)
     elif ord == 1.0:
-        return op.ReduceL1(self, dim, keepdims=keepdim)
+        result = op.ReduceL1(self, dim, keepdims=keepdim)
     elif ord == 2.0:
-        return op.ReduceL2(self, dim, keepdims=keepdim)
+        result = op.ReduceL2(self, dim, keepdims=keepdim)
     else:
         if ord < 0 or ord % 2 != 0:
             # Not an even integer (could be odd, fractional or negative), use Abs
             self = op.Abs(self)
         self_pow = op.Pow(self, ord)
         exp = op.CastLike(1 / ord, self)
-        return op.Pow(op.ReduceSum(self_pow, dim, keepdims=keepdim), exp)
+        result = op.Pow(op.ReduceSum(self_pow, dim, keepdims=keepdim), exp)
+    if keep_all_dims_rank > 0:
+        result = op.Reshape(result, op.Constant(value_ints=[1] * keep_all_dims_rank))
+    return result
